@@ -96,8 +96,14 @@ pub fn gen_specs<S: Scheme>(cfg: &Cfg, n: usize, rng: &mut impl RngCore) -> Vec<
         .map(|label| {
             let shape = pick_shape(rng);
             // target degree
-            let mut deg = match rng.next_u32() % 4 {
+            let mut deg = match rng.next_u32() % 6 {
                 0 => maxd,
+                1 => {
+                    // boundary degrees: one below the maximum, powers of two and their neighbours
+                    let p = 1usize << below(rng, 7);
+                    let c = [maxd.saturating_sub(1), p, p.saturating_sub(1), p + 1, 0, 1];
+                    c[below(rng, c.len())].min(maxd)
+                }
                 _ => below(rng, maxd + 1),
             };
             if S::KIND == Kind::Multivariate && deg == 0 && shape != Shape::Zero && shape != Shape::Const {
@@ -113,7 +119,12 @@ pub fn gen_specs<S: Scheme>(cfg: &Cfg, n: usize, rng: &mut impl RngCore) -> Vec<
                 if ok.is_empty() {
                     None
                 } else {
-                    Some(ok[below(rng, ok.len())])
+                    // tight, loosest and arbitrary bounds
+                    Some(match rng.next_u32() % 5 {
+                        0 | 1 => ok[0],
+                        2 => ok[ok.len() - 1],
+                        _ => ok[below(rng, ok.len())],
+                    })
                 }
             } else {
                 None
